@@ -41,7 +41,9 @@ def main():
     kname = sys.argv[sys.argv.index("--as") + 1] if "--as" in sys.argv else k
     dst = OUT / f"{pid}-{kname}"
     dst.mkdir(parents=True, exist_ok=True)
-    if patch.resolve() != (dst / "patch.diff").resolve():
+    # a re-verification (--skip-confirm) never rewrites an existing patch: a run started from an older snapshot of /verif would otherwise
+    # put an outdated patch back (this happened to three patches that had been rebased onto a /repo fix)
+    if patch.resolve() != (dst / "patch.diff").resolve() and not (skip_confirm and (dst / "patch.diff").exists()):
         shutil.copy(patch, dst / "patch.diff")
         shutil.copy(demo, dst / "demo.py")
     try:
